@@ -131,14 +131,19 @@ def check_rough(prog: Program, res: Result) -> None:
     res.ob("C06-subs", sorted(perm) == [0, 1, 2, 3], fi.qualname, "mask permuted by a permutation of the four axes before where()", f"mask permuted by {perm}", fi.where)
     subs = norm(wst.targets[0]) if isinstance(wst, ast.Assign) and isinstance(wst.targets[0], ast.Name) else None
     sv = wst.value if isinstance(wst, ast.Assign) else None
+    # either the per-axis subscripts are stacked as columns of one matrix, or where() is unpacked into one name per axis
+    unpacked = [e.id for e in wst.targets[0].elts] if isinstance(wst, ast.Assign) and isinstance(wst.targets[0], ast.Tuple) and sv is where_calls[0] \
+        and all(isinstance(e, ast.Name) for e in wst.targets[0].elts) and len(wst.targets[0].elts) == 4 else None
     ok = isinstance(sv, ast.Call) and norm(sv.func) == "torch.stack" and (any(k_.arg in ("axis", "dim") and astq.const_value(k_.value) == -1 for k_ in sv.keywords)
                                                                         or (len(sv.args) == 2 and astq.const_value(sv.args[1]) == -1))
-    res.ob("C06-subs", ok and subs is not None, fi.qualname, "subscripts stacked on the last axis", "subscripts are not stacked as columns", fi.where)
+    res.ob("C06-subs", (ok and subs is not None) or unpacked is not None, fi.qualname, "subscripts stacked on the last axis (or unpacked per axis)", "subscripts are not stacked as columns", fi.where)
     col_of_dim = {d_: j_ for j_, d_ in enumerate(perm)} if sorted(perm) == [0, 1, 2, 3] else {}
 
     def col(e):
         """column k of `subs[:, k]` (possibly wrapped in .to(...))"""
         e = astq.peel(e, "to", "long", "int", "float")
+        if unpacked is not None and isinstance(e, ast.Name) and e.id in unpacked:
+            return unpacked.index(e.id)
         if isinstance(e, ast.Subscript) and norm(e.value) == subs and isinstance(e.slice, ast.Tuple) and len(e.slice.elts) == 2 and norm(e.slice.elts[0]) == ":":
             k_ = e.slice.elts[1]
             if isinstance(k_, ast.List):
@@ -151,7 +156,7 @@ def check_rough(prog: Program, res: Result) -> None:
 
     rets_ = [n for n in walk_function(fn) if isinstance(n, ast.Return)]
     rt = rets_[0].value.elts if len(rets_) == 1 and isinstance(rets_[0].value, ast.Tuple) and len(rets_[0].value.elts) == 4 else []
-    rd = [astq.expand_at(fn, e, rets_[0], keep=[subs] if subs else []) for e in rt]
+    rd = [astq.expand_at(fn, e, rets_[0], keep=([subs] if subs else []) + (unpacked or [])) for e in rt]
     if len(rd) == 4 and col_of_dim:
         pts, vals, si, ci = rd
         got = col(pts)
